@@ -1,10 +1,11 @@
 import asyncio
 import contextlib
 import os
+import pickle
 import signal
 from collections.abc import Callable, Generator
 from concurrent.futures import ProcessPoolExecutor
-from concurrent.futures.process import BrokenProcessPool
+from concurrent.futures.process import BrokenProcessPool, _ExceptionWithTraceback
 from dataclasses import dataclass
 from datetime import datetime, timezone
 from functools import partial
@@ -108,6 +109,21 @@ def _call_all(*funcs: Callable[[], Any] | None) -> None:
         func()
 
 
+def _call(func: Callable[[], _T]) -> tuple[_T | None, BaseException | None]:
+    '''Call the function in the process and return its return value or exception.
+
+    The exception is returned rather than raised because not every exception can be
+    set to a future unchanged, e.g., StopIteration, concurrent.futures.CancelledError.
+    '''
+    try:
+        return func(), None
+    except BaseException as e:
+        # The same wrapper as ProcessPoolExecutor uses to send the traceback.
+        exc = _ExceptionWithTraceback(e, e.__traceback__)
+        pickle.loads(pickle.dumps(exc))  # Raise here if it cannot be sent.
+        return None, exc  # type: ignore
+
+
 async def run_in_process(
     func: Callable[[], _T],
     mp_context: BaseContext | None = None,
@@ -157,14 +173,14 @@ async def run_in_process(
             )
             loop = asyncio.get_running_loop()
             try:
-                future = loop.run_in_executor(executor, func)
+                future = loop.run_in_executor(executor, partial(_call, func))
                 process = list(executor._processes.values())[0]
 
                 event.set()
                 ret = None
                 exc = None
                 try:
-                    ret = await future
+                    ret, exc = await future
                 except BrokenProcessPool:
                     # NOTE: Not possible to use "as" for unknown reason.
                     pass
